@@ -80,11 +80,13 @@ struct LimSink {
     lim: usize,
     got: Vec<u8>,
     fail: bool,
+    intr: bool, // the next call fails with ErrorKind::Interrupted (EINTR), later ones work
 }
 struct LimSrc {
     data: Vec<u8>,
     pos: usize,
     fail: bool,
+    intr: bool,
 }
 fn ferr() -> io::Error {
     io::Error::new(io::ErrorKind::Other, "verif-file-error")
@@ -99,6 +101,10 @@ impl FileReadWriteVolatile for LimSink {
     fn write_vectored_volatile(&mut self, bufs: &[FileVolatileSlice]) -> io::Result<usize> {
         if self.fail {
             return Err(ferr());
+        }
+        if self.intr {
+            self.intr = false;
+            return Err(io::Error::new(io::ErrorKind::Interrupted, "verif-eintr"));
         }
         let mut n = 0;
         for b in bufs {
@@ -126,6 +132,10 @@ impl FileReadWriteVolatile for LimSrc {
     fn read_vectored_volatile(&mut self, bufs: &[FileVolatileSlice]) -> io::Result<usize> {
         if self.fail {
             return Err(ferr());
+        }
+        if self.intr {
+            self.intr = false;
+            return Err(io::Error::new(io::ErrorKind::Interrupted, "verif-eintr"));
         }
         let mut n = 0;
         for b in bufs {
@@ -272,6 +282,8 @@ fn io_err(e: &io::Error) -> String {
         "eof".into()
     } else if e.kind() == io::ErrorKind::WriteZero {
         "writezero".into()
+    } else if e.kind() == io::ErrorKind::Interrupted {
+        "intr".into()
     } else if msg.contains("verif-file-error") || e.raw_os_error().is_some() {
         "file".into()
     } else if msg.contains("would overflow") {
@@ -373,7 +385,7 @@ fn reader_op<S: BitmapSlice>(rs: &mut Vec<Reader<'_, S>>, f: &[&str]) -> Obs {
                     Err(e) => er(&io_err(&e)),
                 },
                 "l" | "e" => {
-                    let mut s = LimSink { lim, got: vec![], fail: f[3] == "e" };
+                    let mut s = LimSink { lim, got: vec![], fail: f[3] == "e", intr: f[3] == "i" };
                     match rs[i].read_to(&mut s, count) {
                         Ok(n) => ok(n, &s.got),
                         Err(e) => er(&io_err(&e)),
@@ -402,7 +414,7 @@ fn reader_op<S: BitmapSlice>(rs: &mut Vec<Reader<'_, S>>, f: &[&str]) -> Obs {
                     Err(e) => er(&io_err(&e)),
                 },
                 _ => {
-                    let mut s = LimSink { lim, got: vec![], fail: f[3] == "e" };
+                    let mut s = LimSink { lim, got: vec![], fail: f[3] == "e", intr: f[3] == "i" };
                     match rs[i].read_exact_to(&mut s, count) {
                         Ok(()) => ok(s.got.len(), &s.got),
                         Err(e) => er(&io_err(&e)),
@@ -462,6 +474,143 @@ fn split_datas(s: &str) -> Vec<Vec<u8>> {
     }
 }
 
+// ---- a VirtioFsWriter used either directly or through the transport-neutral `Writer` enum (case key via=enum) ----
+enum VW<'a, S: BitmapSlice> {
+    D(VirtioFsWriter<'a, S>),
+    E(Writer<'a, S>),
+}
+impl<'a, S: BitmapSlice> VW<'a, S> {
+    fn new(w: VirtioFsWriter<'a, S>, via_enum: bool) -> Self {
+        if via_enum {
+            VW::E(Writer::VirtioFs(w))
+        } else {
+            VW::D(w)
+        }
+    }
+    fn conc(&mut self) -> &mut VirtioFsWriter<'a, S> {
+        match self {
+            VW::D(w) => w,
+            VW::E(Writer::VirtioFs(w)) => w,
+            _ => unreachable!(),
+        }
+    }
+    fn write(&mut self, b: &[u8]) -> io::Result<usize> {
+        match self {
+            VW::D(w) => w.write(b),
+            VW::E(w) => w.write(b),
+        }
+    }
+    fn write_vectored(&mut self, b: &[IoSlice<'_>]) -> io::Result<usize> {
+        match self {
+            VW::D(w) => w.write_vectored(b),
+            VW::E(w) => w.write_vectored(b),
+        }
+    }
+    fn flush(&mut self) -> io::Result<()> {
+        match self {
+            VW::D(w) => w.flush(),
+            VW::E(w) => w.flush(),
+        }
+    }
+    fn write_from<F: FileReadWriteVolatile>(&mut self, f: F, count: usize) -> io::Result<usize> {
+        self.conc().write_from(f, count)
+    }
+    fn write_all_from<F: FileReadWriteVolatile>(&mut self, f: F, count: usize) -> io::Result<()> {
+        self.conc().write_all_from(f, count)
+    }
+    fn write_from_at<F: FileReadWriteVolatile>(&mut self, f: F, count: usize, off: u64) -> io::Result<usize> {
+        match self {
+            VW::D(w) => w.write_from_at(f, count, off),
+            VW::E(w) => w.write_from_at(f, count, off),
+        }
+    }
+    fn split_at(&mut self, off: usize) -> Result<Self, TError> {
+        match self {
+            VW::D(w) => w.split_at(off).map(VW::D),
+            VW::E(w) => w.split_at(off).map(VW::E),
+        }
+    }
+    fn commit(&mut self) -> io::Result<usize> {
+        match self {
+            VW::D(w) => w.commit(None),
+            VW::E(w) => w.commit(None),
+        }
+    }
+    fn available_bytes(&self) -> usize {
+        match self {
+            VW::D(w) => w.available_bytes(),
+            VW::E(w) => w.available_bytes(),
+        }
+    }
+    fn bytes_written(&self) -> usize {
+        match self {
+            VW::D(w) => w.bytes_written(),
+            VW::E(w) => w.bytes_written(),
+        }
+    }
+}
+#[cfg(feature = "async-io")]
+impl<'a, S: BitmapSlice> VW<'a, S> {
+    async fn async_write(&mut self, d: &[u8]) -> io::Result<usize> {
+        match self {
+            VW::D(w) => w.async_write(d).await,
+            VW::E(w) => w.async_write(d).await,
+        }
+    }
+    async fn async_write2(&mut self, d: &[u8], d2: &[u8]) -> io::Result<usize> {
+        match self {
+            VW::D(w) => w.async_write2(d, d2).await,
+            VW::E(w) => w.async_write2(d, d2).await,
+        }
+    }
+    async fn async_write3(&mut self, d: &[u8], d2: &[u8], d3: &[u8]) -> io::Result<usize> {
+        match self {
+            VW::D(w) => w.async_write3(d, d2, d3).await,
+            VW::E(w) => w.async_write3(d, d2, d3).await,
+        }
+    }
+    async fn async_write_all(&mut self, d: &[u8]) -> io::Result<()> {
+        match self {
+            VW::D(w) => w.async_write_all(d).await,
+            VW::E(w) => w.async_write_all(d).await,
+        }
+    }
+    async fn async_write_from_at(&mut self, f: &aio::AFile, count: usize, off: u64) -> io::Result<usize> {
+        match self {
+            VW::D(w) => w.async_write_from_at(f, count, off).await,
+            VW::E(w) => w.async_write_from_at(f, count, off).await,
+        }
+    }
+    async fn async_commit(&mut self) -> io::Result<usize> {
+        match self {
+            VW::D(w) => w.async_commit(None).await,
+            VW::E(w) => w.async_commit(None).await,
+        }
+    }
+}
+
+// write_obj::<T>(val) for the integer type whose little-endian bytes are `d`
+macro_rules! write_obj_of {
+    ($w:expr, $d:expr) => {
+        match $d.len() {
+            1 => $w.write_obj($d[0]),
+            2 => $w.write_obj(u16::from_le_bytes([$d[0], $d[1]])),
+            4 => $w.write_obj(u32::from_le_bytes([$d[0], $d[1], $d[2], $d[3]])),
+            8 => {
+                let mut a = [0u8; 8];
+                a.copy_from_slice(&$d);
+                $w.write_obj(u64::from_le_bytes(a))
+            }
+            16 => {
+                let mut a = [0u8; 16];
+                a.copy_from_slice(&$d);
+                $w.write_obj(u128::from_le_bytes(a))
+            }
+            n => panic!("write_obj width {}", n),
+        }
+    };
+}
+
 // ---- virtio ----------------------------------------------------------------------------------------
 fn virtio_case(line: &str) -> String {
     let seed = num(kv(line, "seed"));
@@ -510,7 +659,7 @@ fn virtio_case(line: &str) -> String {
         Err(e) => init = format!("\"r:{}\"", t_err(&e)),
     }
     match <VirtioFsWriter>::new(&mem, chain.clone()) {
-        Ok(w) => ws.push(w),
+        Ok(w) => ws.push(VW::new(w, kv(line, "via") == "enum")),
         Err(e) => {
             if init == "\"ok\"" {
                 init = format!("\"w:{}\"", t_err(&e))
@@ -534,6 +683,18 @@ fn virtio_case(line: &str) -> String {
                             Ok(n) => ok(n, &[]),
                             Err(e) => er(&io_err(&e)),
                         },
+                        "O" => {
+                            let d = unhex(f[2]);
+                            let w = ws[i].conc();
+                            match write_obj_of!(w, d) {
+                                Ok(()) => ok(d.len(), &[]),
+                                Err(e) => er(&io_err(&e)),
+                            }
+                        }
+                        "F" => match ws[i].flush() {
+                            Ok(()) => ok(0, &[]),
+                            Err(e) => er(&io_err(&e)),
+                        },
                         "v" => {
                             let ds = split_datas(f.get(2).copied().unwrap_or(""));
                             let ios: Vec<IoSlice> = ds.iter().map(|d| IoSlice::new(d)).collect();
@@ -553,7 +714,7 @@ fn virtio_case(line: &str) -> String {
                                     ws[i].write_from_at(&mut memfd(&c), count, 2)
                                 }
                                 "b" => ws[i].write_from(&mut wronly_file(), count),
-                                "l" | "e" => ws[i].write_from(&mut LimSrc { data, pos: 0, fail: f[3] == "e" }, count),
+                                "l" | "e" | "i" => ws[i].write_from(&mut LimSrc { data, pos: 0, fail: f[3] == "e", intr: f[3] == "i" }, count),
                                 k => panic!("src kind {}", k),
                             };
                             match r {
@@ -567,7 +728,7 @@ fn virtio_case(line: &str) -> String {
                             let r = match f[3] {
                                 "f" => ws[i].write_all_from(&mut memfd(&data), count),
                                 "b" => ws[i].write_all_from(&mut wronly_file(), count),
-                                _ => ws[i].write_all_from(&mut LimSrc { data, pos: 0, fail: f[3] == "e" }, count),
+                                _ => ws[i].write_all_from(&mut LimSrc { data, pos: 0, fail: f[3] == "e", intr: f[3] == "i" }, count),
                             };
                             match r {
                                 Ok(()) => ok(0, &[]),
@@ -584,7 +745,7 @@ fn virtio_case(line: &str) -> String {
                                 "b" => aio::block_on(ws[i].async_write2(g(0), g(1))),
                                 "d" => aio::block_on(ws[i].async_write3(g(0), g(1), g(2))),
                                 "e" => aio::block_on(ws[i].async_write_all(g(0))).map(|_| g(0).len()),
-                                "h" => aio::block_on(ws[i].async_commit(None)),
+                                "h" => aio::block_on(ws[i].async_commit()),
                                 _ => {
                                     let count = num(f[2]) as usize;
                                     let data = unhex(f.get(4).copied().unwrap_or(""));
@@ -617,7 +778,7 @@ fn virtio_case(line: &str) -> String {
                             }
                             Err(e) => er(&t_err(&e)),
                         },
-                        "c" => match ws[i].commit(None) {
+                        "c" => match ws[i].commit() {
                             Ok(n) => ok(n, &[]),
                             Err(e) => er(&io_err(&e)),
                         },
@@ -880,6 +1041,48 @@ fn fusedev_case(line: &str) -> String {
                                 Err(e) => er(&io_err(&e)),
                             }
                         }
+                        "O" => {
+                            let d = unhex(f[2]);
+                            let w = match &mut ws[i] {
+                                Writer::FuseDev(w) => w,
+                                _ => unreachable!(),
+                            };
+                            match write_obj_of!(w, d) {
+                                Ok(()) => ok(d.len(), &[]),
+                                Err(e) => er(&io_err(&e)),
+                            }
+                        }
+                        "F" => match ws[i].flush() {
+                            Ok(()) => ok(0, &[]),
+                            Err(_) => er("noflush"),
+                        },
+                        "A" => {
+                            let count = num(f[2]) as usize;
+                            let data = unhex(f.get(4).copied().unwrap_or(""));
+                            let w = match &mut ws[i] {
+                                Writer::FuseDev(w) => w,
+                                _ => unreachable!(),
+                            };
+                            let r = match f[3] {
+                                "f" => w.write_all_from(&mut memfd(&data), count),
+                                "b" => w.write_all_from(&mut wronly_file(), count),
+                                _ => w.write_all_from(&mut LimSrc { data, pos: 0, fail: f[3] == "e", intr: f[3] == "i" }, count),
+                            };
+                            match r {
+                                Ok(()) => ok(0, &[]),
+                                Err(e) => er(&io_err(&e)),
+                            }
+                        }
+                        "f" if f[3] == "a" => {
+                            // write_from_at through the transport-neutral Writer enum
+                            let count = num(f[2]) as usize;
+                            let mut c = vec![0xa5u8, 0xa5];
+                            c.extend_from_slice(&unhex(f.get(4).copied().unwrap_or("")));
+                            match ws[i].write_from_at(&mut memfd(&c), count, 2) {
+                                Ok(n) => ok(n, &[]),
+                                Err(e) => er(&io_err(&e)),
+                            }
+                        }
                         "f" => {
                             let count = num(f[2]) as usize;
                             let data = unhex(f.get(4).copied().unwrap_or(""));
@@ -895,7 +1098,7 @@ fn fusedev_case(line: &str) -> String {
                                     w.write_from_at(&mut memfd(&c), count, 2)
                                 }
                                 "b" => w.write_from(&mut wronly_file(), count),
-                                "l" | "e" => w.write_from(&mut LimSrc { data, pos: 0, fail: f[3] == "e" }, count),
+                                "l" | "e" => w.write_from(&mut LimSrc { data, pos: 0, fail: f[3] == "e", intr: f[3] == "i" }, count),
                                 k => panic!("src kind {}", k),
                             };
                             match r {
